@@ -113,6 +113,8 @@ def raw_cases(rng, n):
             (p, cols), ordered = sp.windowed_then_op(rng), False
         elif rng.random() < 0.12:
             p, ordered = sp.mutual_hidden_join(rng), False
+        elif rng.random() < 0.12:
+            (p, cols), ordered = sp.compound_order_cases(rng), False
         elif rng.random() < 0.4:
             # windows the generator reaches rarely, below a binary operation: empty [0:0] / [k:k], one row, offset only
             win = rng.choice([(0, 0), (0, 0), (1, 1), (0, 1), (2, None)])
